@@ -84,11 +84,11 @@ Theorem C14_inplace_sequential : forall fuel env sk fname o pending ts s im ic g
    match r1 with SErr e => (s1, SErr e) | SOk (im1, ic1) =>
      let '(s2, r2) := consume env sk full no_inc gs2 s1 [] [] in
      match r2 with SErr e => (s2, SErr (with_loc_err (fname, line) e)) | SOk (im2, ic2) =>
-       let '(s3, r3) := consume env sk fname no_inc gs3 (add_imports im2 s2) im1 (ic1 ++ [INode (str_of_value v) im2 ic2]) in
-       match r3 with SErr e => (s3, SErr e) | SOk (im3, ic3) => (add_imports im3 s3, SOk (im3, ic3)) end end end).
+       consume env sk fname no_inc gs3 s2 im1 (ic1 ++ [INode (str_of_value v) im2 ic2]) end end).
 Proof. exact StmtProofs2.C14_inplace_sequential. Qed.
 
-(* exactly as in the flattened text: same registry, constants, store and lock, same success / error class *)
+(* exactly as in the flattened text: same registry, constants, store, lock and recorded imports (sim; each import is
+   recorded when its statement takes effect, so also in the same order), same success / error class *)
 Theorem C14_flatten : forall fuel env sk fname o pending ts s im ic gs1 v line gs3 full g ts0 gs2,
   parse_groups fuel o pending ts = (gs1 ++ [SInclude v line] :: gs3, None) ->
   no_includes gs1 -> no_includes gs3 -> List.length gs1 + S (List.length gs3) < fuel ->
